@@ -750,4 +750,178 @@ theorem phase_no (cfg : Cfg) (st : St) (t1 t2 : Nat) (h : NoReady st t1 t2)
   · simp [b, serr]
   · simp [c, nf]
 
+/-! ### construction of an `FDCapture` -/
+
+attribute [local grind =] OS.fd_openNew OS.file_openNew
+
+/-- `FDCapture(target)` on a valid descriptor: the world afterwards and the object -/
+def fdInitW (w : W) (_target t : Nat) : W :=
+  let os1 := w.os.setFd w.os.free (some t)
+  { w with os := os1.openNew.1, py := { w.py with nextOid := w.py.nextOid + 1 } }
+
+theorem fdInit_out (w : W) (target t : Nat) (h : w.os.fd target = some t) (ht : target = 1 ∨ target = 2) :
+    FdCap.init w target = (fdInitW w target t,
+      fdCap target w.os.free (w.os.setFd w.os.free (some t)).free w.py.nextOid
+        ⟨target, some (w.py.getStd target), .file w.py.nextOid (w.os.setFd w.os.free (some t)).free, .initialized⟩ .initialized) := by
+  rcases ht with rfl | rfl <;> simp [FdCap.init, h, fdInitW, fdCap, newOid, SysCap.init, Py.getStd]
+
+theorem fdInit_in (w : W) (t : Nat) (h : w.os.fd 0 = some t) :
+    FdCap.init w 0 = ({ fdInitW w 0 t with py := { w.py with nextOid := w.py.nextOid + 2 } },
+      fdCap 0 w.os.free (w.os.setFd w.os.free (some t)).free w.py.nextOid
+        ⟨0, some w.py.stdin, .dontRead (w.py.nextOid + 1), .initialized⟩ .initialized) := by
+  simp [FdCap.init, h, fdInitW, fdCap, newOid, SysCap.init, Py.getStd]
+
+
+theorem OS.Std3.setFd_ge3 {o : OS} (h : o.Std3) (i : Nat) (v : Option Nat) (hi : 3 ≤ i) : (o.setFd i v).Std3 := by
+  obtain ⟨⟨f0, a0, b0⟩, ⟨f1, a1, b1⟩, ⟨f2, a2, b2⟩⟩ := h
+  exact ⟨⟨f0, by grind, b0⟩, ⟨f1, by grind, b1⟩, ⟨f2, by grind, b2⟩⟩
+
+theorem OS.Std3.openNew {o : OS} (h : o.Std3) : o.openNew.1.Std3 := by
+  have := o.free_ge3 h
+  obtain ⟨⟨f0, a0, b0⟩, ⟨f1, a1, b1⟩, ⟨f2, a2, b2⟩⟩ := h
+  exact ⟨⟨f0, by grind, by simp; omega⟩, ⟨f1, by grind, by simp; omega⟩, ⟨f2, by grind, by simp; omega⟩⟩
+
+theorem OS.count_setFd_free (o : OS) (v : Nat) : (o.setFd o.free (some v)).count = o.count + 1 := by
+  have := o.count_setFd o.free (some v)
+  simpa using this
+
+/-- the descriptors and files one `FDCapture(target)` allocates -/
+theorem fdInitW_spec (w : W) (target t : Nat) (hs : w.os.Std3) :
+    let s := w.os.free
+    let p := (w.os.setFd s (some t)).free
+    3 ≤ s ∧ 3 ≤ p ∧ s ≠ p ∧ (fdInitW w target t).os.Std3 ∧
+    (∀ j, (fdInitW w target t).os.fd j = if j = p then some w.os.files.length else if j = s then some t else w.os.fd j) ∧
+    (∀ f, (fdInitW w target t).os.file f = w.os.file f) ∧
+    (fdInitW w target t).os.files.length = w.os.files.length + 1 ∧
+    (fdInitW w target t).os.count = w.os.count + 2 ∧ (fdInitW w target t).fault = w.fault := by
+  intro s p
+  have hs1 := w.os.free_ge3 hs
+  have hs2 : (w.os.setFd s (some t)).Std3 := hs.setFd_ge3 _ _ hs1
+  have hp := (w.os.setFd s (some t)).free_ge3 hs2
+  have hf := (w.os.setFd s (some t)).fd_free
+  refine ⟨hs1, hp, ?_, hs2.openNew, ?_, ?_, ?_, ?_, rfl⟩
+  · intro e
+    have h1 : (w.os.setFd s (some t)).fd s = some t := by simp
+    have h2 : (w.os.setFd s (some t)).fd p = none := hf
+    rw [← e, h1] at h2; cases h2
+  · intro j; simp only [fdInitW, OS.fd_openNew, OS.fd_setFd, OS.files_setFd]; rfl
+  · intro f; simp [fdInitW]
+  · simp [fdInitW]
+  · simp only [fdInitW, OS.count_openNew, OS.count_setFd_free]
+
+
+theorem FdCap.start_init (w : W) (target save pyfd oid : Nat) (old tmp : Stream) :
+    FdCap.start w (fdCap target save pyfd oid ⟨target, some old, tmp, .initialized⟩ .initialized)
+      = ({ w with py := w.py.setStd target tmp, os := w.os.dup2 pyfd target },
+         fdCap target save pyfd oid ⟨target, some old, tmp, .started⟩ .started) := by
+  simp [FdCap.start, fdCap, optSys, SysCap.start, W.setStd]
+
+/-- the process state the theorems start from: descriptors 0-2 open on existing files, `sys.stdout` / `sys.stderr`
+are the interpreter's own streams, no assertion has failed -/
+structure StdW (w : W) : Prop where
+  os : w.os.Std3
+  sout : w.py.stdout = .orig 1
+  serr : w.py.stderr = .orig 2
+  nofault : w.fault = false
+
+/-! ## Layer 3 — all windows of a build -/
+
+/-- one entered hook of one task: (task, hook, writes, warning filters the body adds) -/
+abbrev Phase := Nat × String × List Write × List Nat
+
+def Phase.op (ph : Phase) : Op := .phase ph.1 ph.2.1 ph.2.2.1 ph.2.2.2
+
+def phaseList (ios : List TaskIO) : List Phase :=
+  ios.flatMap (fun t => t.phases.map (fun hw => (t.id, hw.1, hw.2, if hw.1 == "pytask_execute_task" then t.filt else [])))
+
+theorem phaseOps_eq (ios : List TaskIO) : phaseOps ios = (phaseList ios).map Phase.op := by
+  simp [phaseOps, phaseList, List.map_flatMap, Phase.op, Function.comp_def]
+
+/-- the sections the property prescribes for one window when channels `cap` are captured -/
+def Phase.secs (cap : Chan → Bool) (ph : Phase) : List Sec :=
+  secsOf ph.1 (whenOf ph.2.1) (outText (fun c => cap c && !c.isErr) ph.2.2.1) (outText (fun c => cap c && c.isErr) ph.2.2.1)
+
+/-- everything the tasks wrote, in execution order -/
+def allWrites (phs : List Phase) : List Write := phs.flatMap (fun ph => ph.2.2.1)
+
+theorem outText_append (sel : Chan → Bool) (a b : List Write) : outText sel (a ++ b) = outText sel a ++ outText sel b := by
+  simp [outText]
+
+/-- the interpreter state a window must leave alone -/
+def miscOf (p : Py) := (p.filters, p.setTrace, p.pdbSaved, p.reportVars, p.provisional, p.collected, p.modules, p.dbFd,
+  p.garbage, p.stdout, p.stderr)
+
+/-- what one window does, for a capture method characterised by: the invariant `R` between windows, the captured
+channels `cap`, the files `keep` the statement speaks about and the channels `term f` that reach file `f`. -/
+structure Law (cfg : Cfg) (R : St → Prop) (cap : Chan → Bool) (keep : Nat → Prop) (term : Nat → Chan → Bool) : Prop where
+  phase : ∀ (st : St) (ph : Phase), R st →
+    R (step cfg st ph.op) ∧
+    (step cfg st ph.op).secs = st.secs ++ ph.secs cap ∧
+    (∀ f, keep f → (step cfg st ph.op).w.os.file f = st.w.os.file f ++ outText (term f) ph.2.2.1) ∧
+    (step cfg st ph.op).w.os.count = st.w.os.count ∧
+    (step cfg st ph.op).tasks = st.tasks ∧
+    (step cfg st ph.op).collectFailed = st.collectFailed ∧
+    miscOf (step cfg st ph.op).w.py = miscOf st.w.py
+
+theorem Law.phases {cfg : Cfg} {R : St → Prop} {cap : Chan → Bool} {keep : Nat → Prop} {term : Nat → Chan → Bool}
+    (law : Law cfg R cap keep term) (phs : List Phase) (st : St) (h : R st) :
+    R (runOps cfg st (phs.map Phase.op)) ∧
+    (runOps cfg st (phs.map Phase.op)).secs = st.secs ++ phs.flatMap (Phase.secs cap) ∧
+    (∀ f, keep f → (runOps cfg st (phs.map Phase.op)).w.os.file f = st.w.os.file f ++ outText (term f) (allWrites phs)) ∧
+    (runOps cfg st (phs.map Phase.op)).w.os.count = st.w.os.count ∧
+    (runOps cfg st (phs.map Phase.op)).tasks = st.tasks ∧
+    (runOps cfg st (phs.map Phase.op)).collectFailed = st.collectFailed ∧
+    miscOf (runOps cfg st (phs.map Phase.op)).w.py = miscOf st.w.py := by
+  induction phs generalizing st with
+  | nil => simpa [runOps, allWrites] using h
+  | cons ph phs ih =>
+    obtain ⟨a1, a2, a3, a4, a5, a6, a7⟩ := law.phase st ph h
+    obtain ⟨b1, b2, b3, b4, b5, b6, b7⟩ := ih (step cfg st ph.op) a1
+    simp only [runOps, List.map_cons, List.foldl_cons] at b1 b2 b3 b4 b5 b6 b7 ⊢
+    refine ⟨b1, ?_, ?_, by rw [b4, a4], by rw [b5, a5], by rw [b6, a6], by rw [b7, a7]⟩
+    · rw [b2, a2]; simp
+    · intro f hf
+      rw [b3 f hf, a3 f hf]
+      simp [allWrites, outText_append]
+
+theorem law_fd (cfg : Cfg) (p : FdP) :
+    Law cfg (fun st => ∃ ins, FdReady st p ins) (fun _ => true) (fun f => f ≠ p.g1 ∧ f ≠ p.g2) (fun _ _ => false) := by
+  constructor
+  intro st ph ⟨ins, h⟩
+  obtain ⟨a1, a2, a3, a4, a5, a6, a7⟩ := phase_fd cfg st p ins h ph.1 ph.2.1 ph.2.2.1 ph.2.2.2
+  refine ⟨⟨_, a1⟩, ?_, ?_, a4, a5, a6, ?_⟩
+  · simpa [Phase.secs, Phase.op] using a2
+  · intro f hf; rw [show step cfg st ph.op = step cfg st (.phase ph.1 ph.2.1 ph.2.2.1 ph.2.2.2) from rfl, a3 f hf.1 hf.2]
+    simp [outText]
+  · rw [show step cfg st ph.op = step cfg st (.phase ph.1 ph.2.1 ph.2.2.1 ph.2.2.2) from rfl, a7]; rfl
+
+theorem law_sys (cfg : Cfg) (p : SysP) :
+    Law cfg (fun st => ∃ ins, SysReady st p ins) (fun c => c.isPy) (fun _ => True)
+      (fun f c => (p.tee || !c.isPy) && ((!c.isErr && p.t1 == f) || (c.isErr && p.t2 == f))) := by
+  constructor
+  intro st ph ⟨ins, h⟩
+  obtain ⟨a1, a2, a3, a4, a5, a6, B, a7⟩ := phase_sys cfg st p ins h ph.1 ph.2.1 ph.2.2.1 ph.2.2.2
+  have e : step cfg st ph.op = step cfg st (.phase ph.1 ph.2.1 ph.2.2.1 ph.2.2.2) := rfl
+  refine ⟨⟨_, a1⟩, ?_, ?_, ?_, a5, a6, ?_⟩
+  · rw [e, a2]; simp only [Phase.secs]
+    congr 2
+    · apply outText_congr; intro c; cases c <;> rfl
+    · apply outText_congr; intro c; cases c <;> rfl
+  · intro f _; rw [e, a3 f]
+  · rw [e]; simp [OS.count, a4]
+  · rw [e, a7]; rfl
+
+theorem law_no (cfg : Cfg) (t1 t2 : Nat) :
+    Law cfg (fun st => NoReady st t1 t2) (fun _ => false) (fun _ => True)
+      (fun f c => (!c.isErr && t1 == f) || (c.isErr && t2 == f)) := by
+  constructor
+  intro st ph h
+  obtain ⟨a1, a2, a3, a4, a5, a6, a7⟩ := phase_no cfg st t1 t2 h ph.1 ph.2.1 ph.2.2.1 ph.2.2.2
+  have e : step cfg st ph.op = step cfg st (.phase ph.1 ph.2.1 ph.2.2.1 ph.2.2.2) := rfl
+  refine ⟨a1, ?_, ?_, ?_, a5, a6, ?_⟩
+  · rw [e, a2]; simp [Phase.secs, secsOf, outText]
+  · intro f _; rw [e, a3 f]
+  · rw [e]; simp [OS.count, a4]
+  · rw [e, a7]
+
 end Pytask.Capture
